@@ -15,6 +15,8 @@ import EinoV.Model.C11
 import EinoV.Proofs.C11
 import EinoV.Model.C11Paths
 import EinoV.Proofs.C11Paths
+import EinoV.Model.C11Late
+import EinoV.Proofs.C11Late
 import EinoV.Gen.FactsC11
 import EinoV.Expected.C11
 
@@ -501,6 +503,116 @@ example :
       [((none : Option (Nat → Nat)), none), (none, some 2)]) = [none, some 2] ∧
     visible none (resumePath srcTop srcSub
       [(some (· + 10), some 1), (some (· + 10), some 2)]) = [some 11, some 12] := by decide
+
+/-! ## a late `ProcessState` through a captured handler context (Model/C11Late.lean)
+
+  "all state pre-handlers, post-handlers and ProcessState callbacks operating on the same state
+  are mutually exclusive … state updates made through these are never lost": also when a
+  callback is run by a closure that kept the `context.Context` a handler (or another
+  `ProcessState` callback) was given, after that handler has returned — the per-chunk converter of
+  the stream a stream handler returns, a goroutine started inside a handler.  The lock is owned by
+  a critical section (a time interval of one thread), never by whoever holds a context value. -/
+
+/-- what the five lock sites of compose/state.go do with the context, as extracted on this run -/
+def srcCtx : CtxFacts :=
+  { handsPlainCtx := FactsC11.handlerCtxPlain, lockUnconditional := FactsC11.lockUnconditional }
+
+/-- **captured_ctx_takes_lock.** (source fact tie) No context — the task's own, or one that a
+    wrapper handed to a user function at any time — makes a lock site of the source skip the
+    lock: the wrappers hand out their own `ctx` (nothing about the lock can be recorded in it) or
+    `Lock` is reached unconditionally.  The same for the facts the oracle runs the model with. -/
+theorem captured_ctx_takes_lock : AlwaysLocks srcCtx ∧ AlwaysLocks Expected.C11.ctxFacts := by
+  have h : srcCtx.lockUnconditional = true ∨ srcCtx.handsPlainCtx = true := by decide
+  refine ⟨?_, alwaysLocks_of_unconditional rfl⟩
+  rcases h with h | h
+  · exact alwaysLocks_of_unconditional h
+  · exact alwaysLocks_of_plain h
+
+/-- **late_process_state_exclusive.** For every assignment `srcs` of contexts to operations —
+    any operation of any thread may be called with the context that any critical section handed
+    to its user function, while that section is still running or long after it has ended —, every
+    interleaving of the lock / load / store / unlock micro-steps and every scheduling restriction
+    (`lateGuard srcs`: a closure runs only after the handler that gave it the context has
+    returned, is one of them): at most one handler / callback is inside its user function and it
+    holds the mutex; the configuration reached is one the atomic machine reaches for a serial
+    order of whole operations; the state is the serial replay of the committed operations; every
+    operation returned what its function returns at its place in that order; no operation is lost
+    or executed twice. -/
+theorem late_process_state_exclusive (srcs : Nat → Nat → CtxSrc) (guard : Sys S V → Nat → Bool)
+    (sched : List Nat) (s0 : S) (ths : List (List (Op S V) × V)) (h : NoGetState ths) :
+    let fin := runK srcCtx srcs srcLocks.of guard sched (init s0 ths)
+    (∀ i j, fin.phase i ≠ .idle → fin.phase j ≠ .idle → i = j) ∧
+    (∀ i, fin.phase i ≠ .idle → fin.holder = some i) ∧
+    (∃ order, fin.core = arun order ⟨s0, ths, []⟩) ∧
+    fin.core.shared = replay s0 fin.core.log ∧
+    Returns s0 fin.core.log ∧
+    (fin.core.log.map (·.op) ++ remaining fin.core).Perm (ths.map (·.1)).flatten := by
+  intro fin
+  have hfin : fin = run srcLocks.of guard sched (init s0 ths) :=
+    runK_eq_run captured_ctx_takes_lock.1 srcs srcLocks.of guard sched (init s0 ths)
+  rw [hfin]
+  have hme := mutual_exclusion guard sched s0 ths h
+  exact ⟨hme.1, hme.2.1, no_lost_update guard sched s0 ths h⟩
+
+/-- **late_updates_all_arrive.** With commuting updates (a closure recording chunks, counters):
+    once every pipeline and every closure has finished, the state is the fold of *all* operations
+    — the handlers', the bodies' and the late closures' — whatever the interleaving and whatever
+    contexts the operations were called with. -/
+theorem late_updates_all_arrive (srcs : Nat → Nat → CtxSrc) (guard : Sys S V → Nat → Bool)
+    (sched : List Nat) (s0 : S) (ths : List (List (Op S V) × V)) (h : NoGetState ths)
+    (g : Op S V → S → S)
+    (hg : ∀ o ∈ (ths.map (·.1)).flatten, ∀ s v,
+        (match o with | .st _ f => (f s v).1 | .loc _ => s) = g o s)
+    (hcomm : ∀ o₁ ∈ (ths.map (·.1)).flatten, ∀ o₂ ∈ (ths.map (·.1)).flatten, ∀ s,
+        g o₂ (g o₁ s) = g o₁ (g o₂ s))
+    (hdone : allDone (runK srcCtx srcs srcLocks.of guard sched (init s0 ths)).core = true) :
+    (runK srcCtx srcs srcLocks.of guard sched (init s0 ths)).core.shared
+      = ((ths.map (·.1)).flatten).foldl (fun s o => g o s) s0 := by
+  rw [runK_eq_run captured_ctx_takes_lock.1] at hdone ⊢
+  exact no_lost_update_commutative guard sched s0 ths h g hg hcomm hdone
+
+/-- The smallest late-closure scenario (seeded change C11-51): thread 0 = node A's stream
+    post-handler; thread 1 = sibling B incrementing through `ProcessState`; thread 2 = the
+    per-chunk converter of the stream A's post-handler returned, incrementing through
+    `ProcessState` with the context that post-handler was given. -/
+def lateThs : List (List (Op Nat Nat) × Nat) :=
+  [([stampOp .streamPost], 0), ([incOp .process 1], 0), ([incOp .process 1], 0)]
+
+def lateSrcs : Nat → Nat → CtxSrc := fun t _ => if t = 2 then .handed 0 0 else .own
+
+def lateRun (cf : CtxFacts) (sched : List Nat) : Sys Nat Nat :=
+  runK cf lateSrcs Expected.C11.locks.of (lateGuard lateSrcs) sched (init 0 lateThs)
+
+/-- A has finished (4 steps), B is inside its callback (2 steps), the closure calls
+    `ProcessState` (1 step); then everybody runs to the end -/
+def lateSched : List Nat := [0, 0, 0, 0, 1, 1, 2, 1, 2, 1, 2, 2, 2, 2]
+
+/-- **(negation witness) A lock that is skipped on the strength of a record in the context is
+    bypassed by a late closure.**  Wrappers that hand out a context recording "lock held"
+    (`handsPlainCtx = false`) together with a `ProcessState` that believes the record
+    (`lockUnconditional = false`): the closure enters while B is inside its callback — two user
+    functions on the state at once, B still the only holder of the mutex — and one of the three
+    updates is lost.  Either fact alone is harmless: under the same schedule the closure waits and
+    all three updates arrive.  (And no closure runs before its context exists: `lateGuard`.) -/
+theorem lock_bypassed_through_captured_ctx :
+    let bad : CtxFacts := { handsPlainCtx := false, lockUnconditional := false }
+    let mid := lateRun bad (lateSched.take 7)
+    let fin := lateRun bad lateSched
+    (inside mid 1 = true ∧ inside mid 2 = true ∧ mid.holder = some 1 ∧ insideCount mid 3 = 2) ∧
+    (allDone fin.core = true ∧ fin.core.shared = 2) ∧
+    (∀ cf ∈ [({ handsPlainCtx := false, lockUnconditional := true } : CtxFacts),
+             { handsPlainCtx := true, lockUnconditional := false }],
+      insideCount (lateRun cf (lateSched.take 7)) 3 = 1 ∧
+      allDone (lateRun cf lateSched).core = true ∧ (lateRun cf lateSched).core.shared = 3) ∧
+    lateGuard lateSrcs (init 0 lateThs) 2 = false ∧
+    lateGuard lateSrcs (lateRun bad [0, 0, 0]) 2 = true := by decide
+
+/-- the same scenario with the facts of the source: the closure waits for B, nothing is lost -/
+example :
+    insideCount (lateRun srcCtx (lateSched.take 7)) 3 = 1 ∧
+    (lateRun srcCtx (lateSched.take 7)).holder = some 1 ∧
+    allDone (lateRun srcCtx lateSched).core = true ∧ (lateRun srcCtx lateSched).core.shared = 3 := by
+  decide
 
 /-! ## node paths and the caller's modifier (Model/C11Paths.lean)
 
